@@ -1,5 +1,5 @@
 import Rfsm.Model.Wire
-import Rfsm.Model.ReaderDoc
+import Rfsm.Model.ReaderSpec
 /-!
 Driver family `reader` (C04).  Structured payloads travel as one word in a small s-expression
 syntax: `(` … `)` lists, elements separated by `,`; bare atoms `[A-Za-z0-9_~.-]+` (tags, numbers,
@@ -12,6 +12,7 @@ syntax: `(` … `)` lists, elements separated by `,`; bare atoms `[A-Za-z0-9_~.-
   reader oracle <fsm> <doc>    → `1` | `0 <decompiled doc | none> <normalised doc>`
                                   the property's predicate `decompile dump = normalise t`
   reader docorder <fsm>        → `1` | `0`                            (doc ids are a pre-order)
+  reader wf <doc>              → `1` | `0`                            (`wfDoc`, hypothesis of C04_full)
 -/
 namespace Driver.Reader
 open Rfsm Rfsm.Wire Rfsm.Reader Rfsm.Descriptor
@@ -584,6 +585,10 @@ def handle : List String → String
         if ds = n then "1" else "0 " ++ ds ++ " " ++ n
       | none => "0 none " ++ n
     | _, _ => "bad-op"
+  | ["wf", d] =>
+    match (parseSx d).bind gDoc with
+    | some d => if wfDoc d then "1" else "0"
+    | none => "bad-op"
   | ["docorder", f] =>
     match (parseSx f).bind gFsm with
     | some f => if docOrderOk f then "1" else "0"
